@@ -39,7 +39,7 @@ Definition obind {A B} (x : outcome A) (f : A -> outcome B) : outcome B :=
   | Panic s => Panic s
   | Overflow s => Overflow s
   end.
-Definition omap {A B} (f : A -> B) (x : outcome A) : outcome B :=
+Definition outcome_map {A B} (f : A -> B) (x : outcome A) : outcome B :=
   obind x (fun a => Ok (f a)).
 Notation "x <- e1 ;; e2" := (obind e1 (fun x => e2))
   (at level 100, e1 at next level, right associativity).
